@@ -24,8 +24,8 @@ REQUIRED = {'mv-index': 500, 'mv-coeff': 500, 'mv-identity': 500,
     'rect-identity': 500, 'rect-rownorm': 200, 'reject': 200,
     '_maxvol': 200, 'nested-in-cross': 50}
 REQUIRED_EVENTS = {'swaps-observed': 100, 'limit-hit': 5, 'rows-added': 100}
-ASSUMPTIONS = ['coefficient tolerance 100 eps cond(A[I]) max(1,|B|max) '
-    '|A[I]|max (cond capped at 1e10)', 'swap count read by a line probe on '
+ASSUMPTIONS = ['coefficient tolerance 100 eps (r + steps + 10) r max(1,|B|max) '
+    '|A[I]|max (backward-stable construction, no conditioning factor)', 'swap count read by a line probe on '
     '"I[j] = i"; if the probe target is missing the dominance monitor is '
     'inconclusive']
 SHARDS = {'quick': 12, 'thorough': 16}
@@ -38,7 +38,7 @@ def gen_cases(seed, tier):
     rng = np.random.default_rng([seed, 108])
     q = tier == 'quick'
     out = []
-    for j in range(2500 if q else 60000):
+    for j in range(10000 if q else 300000):
         out.append({'kind': 'matrix', 'seed': int(rng.integers(1 << 62)),
             'rows': ['plain', 'dup', 'zero', 'dupzero'][j % 4]})
     for j in range(40 if q else 600):
@@ -46,12 +46,19 @@ def gen_cases(seed, tier):
     return out
 
 
-def coeff_tol(A, I, B):
+def coeff_tol(A, I, B, steps=0):
+    """Residual tolerance of A = B A[I] for a backward-stable construction.
+
+    B is obtained by triangular solves with the LU factors and rank-one
+    updates with pivots |B_ij| > 1: the residual B A[I] - A is bounded by
+    c eps (r + steps) |B|max |A[I]|max r, independent of cond(A[I]).  (The
+    first version of this check allowed a factor cond(A[I]); an explicit
+    inverse, whose residual grows with the conditioning, slipped through.)
+    """
     AI = A[I]
-    s = np.linalg.svd(AI, compute_uv=False)
-    cond = s[0] / s[-1] if s[-1] > 0 else np.inf
-    return 100 * EPS * min(cond, 1e10) * max(1., float(np.abs(B).max())) * \
-        float(np.abs(AI).max()) * max(A.shape[1], 1)
+    r = max(A.shape[1], 1)
+    return 100 * EPS * (r + steps + 10) * max(1., float(np.abs(B).max())) * \
+        float(np.abs(AI).max()) * r
 
 
 def judge_index(ctx, mon, I, n, lo, hi, what):
@@ -73,13 +80,19 @@ def judge_maxvol(ctx, A, e, k, I, B, swaps):
             and B.shape == (n, r) and np.all(np.isfinite(B)),
             f'maxvol: B has shape {getattr(B, "shape", None)} / non-finite'):
         return
-    tol = coeff_tol(A, I, B)
+    tol = coeff_tol(A, I, B, swaps or 0)
     res = float(np.abs(B @ A[I] - A).max())
+    ctx.margins['mv-coeff'] = max(ctx.margins.get('mv-coeff', 0.), res / tol)
     ctx.check('mv-coeff', res <= tol, lambda: f'maxvol {n}x{r}: |B A[I] - A|'
         f'max = {res:.3e} > {tol:.3e}', e=e, k=k)
+    # B[I] = A[I] A[I]^-1 is a FORWARD quantity: its deviation from the
+    # identity is bounded by the conditioning of the selected rows
+    sv = np.linalg.svd(A[I], compute_uv=False)
+    cond = sv[0] / sv[-1] if sv[-1] > 0 else np.inf
+    tol_id = 100 * EPS * (r + (swaps or 0) + 10) * r * min(cond, 1e12)
     dev = float(np.abs(B[I] - np.eye(r)).max())
-    ctx.check('mv-identity', dev <= tol / max(float(np.abs(A[I]).max()), 1e-300)
-        + 100 * EPS, lambda: f'maxvol: |B[I] - identity|max = {dev:.3e}')
+    ctx.check('mv-identity', dev <= tol_id, lambda: f'maxvol: |B[I] - '
+        f'identity|max = {dev:.3e} > {tol_id:.3e} (cond {cond:.1e})')
     if swaps is None:
         ctx.skip('mv-dominant', 'swap-probe-missing')
         return
@@ -115,8 +128,9 @@ def judge_rect(ctx, A, e, dr_min, dr_max, I, B):
             f'maxvol_rect: B has shape {getattr(B, "shape", None)} for '
             f'{q} rows / non-finite entries'):
         return
-    tol = coeff_tol(A, I, B) * (1 + q - r)
+    tol = coeff_tol(A, I, B, q - r) * (1 + q - r)
     res = float(np.abs(B @ A[I] - A).max())
+    ctx.margins['rect-coeff'] = max(ctx.margins.get('rect-coeff', 0.), res / tol)
     ctx.check('rect-coeff', res <= tol, lambda: f'maxvol_rect {n}x{r}: '
         f'|B A[I] - A|max = {res:.3e} > {tol:.3e}', dr=[dr_min, dr_max], e=e)
     ctx.check('rect-identity', np.array_equal(B[I], np.eye(q)),
